@@ -22,11 +22,23 @@ import (
 )
 
 const (
+	repoDir = "/repo"
+	goBin   = "go1.26.8"
+)
+
+// verifDir is where this checkout of the machinery lives (normally /verif; a
+// snapshot under /root/.vp/runs/<n>/verif when started through `vp run`).
+var (
 	verifDir = "/verif"
 	simDir   = "/verif/sim"
-	repoDir  = "/repo"
-	goBin    = "go1.26.8"
 )
+
+func init() {
+	if d := os.Getenv("VERIF_DIR"); d != "" {
+		verifDir = d
+		simDir = filepath.Join(d, "sim")
+	}
+}
 
 type tierCfg struct {
 	QuickRuns     int     // total runs in the quick tier
